@@ -469,6 +469,7 @@ class Executor:
         self.defer_stack = []
         self.trace = False
         self.objtype = {}
+        self.deadline = None
         install_default_intrinsics(self)
 
     # ------------------------------------------------------------ objects
@@ -747,6 +748,8 @@ class Executor:
         iters = {}
         defer_base = len(self.defer_stack)
         while pending:
+            if self.deadline is not None and time.time() > self.deadline:
+                raise Inconclusive('interpretation time budget exceeded in ' + fn.name)
             key = min(pending)
             items = pending.pop(key)
             b = key[1]
